@@ -76,9 +76,13 @@ CLAIMED = {
         ref="5.C18, 6 (D2)", note=STD + FLOCQ,
         technique="Coq theorems over list model + extracted-model differential correspondence (v1 and v2)"),
     "C16": dict(
-        text="Safety and stop-preferring liveness on the models, partial for the v1 priority scheduler until Prio1P lands: v1 join: once stopped the stop alternative is enabled at every blocking point and, taking it, the goroutine closes its output within six of its own steps from ANY state, emitting nothing (C16_join_stop_*); a slice left unreleased by a stop is never written again (C08_unreleased_forever). v1 Simple: process structure of main with its deferred calls and the handlers: when Stop()/GracefulStop() has returned every handler goroutine has exited (no Handle running, none will start), the repaired main is blocked under a stop only while it waits for the inner discipline or for handlers to leave, and the pinned main was deaf to Stop during a pending GracefulStop (kernel-checked witness) (C16_simple_*). v1 priority: model with a stop alternative at every blocking point (Prio1), compared exactly with the code for Stop/cancel injected at random settled points of add/remove/traffic scripts; monitors: Stop/cancel complete (a hang of the harness is the verdict), Stop returns at the instant it is called (join), output closed on return (join), nothing written after, delivered is an in-order duplicate-free subsequence, no Handle running after Stop (Simple, incl. overlapping Stop calls and Stop during GracefulStop). Two genuine defects found and repaired (D3, D5). Probability-1 termination under Go's random select is not expressed.",
+        text="Safety and stop-preferring liveness on the models: v1 priority: what was delivered is an in-order subsequence of what was read, the gaps being exactly the items dropped by a stop-interrupted send (C16_delivered_subsequence, C02_v1_read_accounting); Done enables nothing; once stopped the scheduler is never blocked and, resolving every select in favour of the stop alternative, the REPAIRED loop reaches Done within 4n+10 own steps from every state, while the PINNED loop provably spins for ever between Calc and WaitFb with all handlers busy (C16_stop_terminates, C16_stop_spins_old); v1 join: once stopped the stop alternative is enabled at every blocking point and, taking it, the goroutine closes its output within six of its own steps from ANY state, emitting nothing (C16_join_stop_*); a slice left unreleased by a stop is never written again (C08_unreleased_forever). v1 Simple: process structure of main with its deferred calls and the handlers: when Stop()/GracefulStop() has returned every handler goroutine has exited (no Handle running, none will start), the repaired main is blocked under a stop only while it waits for the inner discipline or for handlers to leave, and the pinned main was deaf to Stop during a pending GracefulStop (kernel-checked witness) (C16_simple_*). The v1 priority model is compared exactly with the code for Stop/cancel injected at random settled points of add/remove/traffic scripts; monitors: Stop/cancel complete (a hang of the harness is the verdict), Stop returns at the instant it is called (join), output closed on return (join), nothing written after, delivered is an in-order duplicate-free subsequence, no Handle running after Stop (Simple, incl. overlapping Stop calls and Stop during GracefulStop). Two genuine defects found and repaired (D3, D5). Probability-1 termination under Go's random select is not expressed.",
         ref="5.C16, 11.3", note=STD + "No axioms. Go's random choice among ready select cases is an oracle (all resolutions for join Stop; stop-preferring resolution for liveness).",
         technique="Coq pc-machine proofs (stop alternatives, bounded stop run, process-structure invariant) + fake-time differential correspondence with trace inclusion + hang watchdog"),
+    "C17": dict(
+        text="Full (safety) on the v1 model, for every divider, every select resolution and every interleaving of traffic, releases, AddInput/RemoveInput and Stop: after the loop has taken AddInput(ch,p) -- the moment the API call returns -- ch is registered under p with Drained reset, p is configured exactly once, the list stays sorted and the strategic distribution is recomputed (C17_add_effect/_sorted); after RemoveInput(p) nothing is registered under p while its in-flight count is kept (C17_remove_effect); every item read was read from the channel registered under the priority it is tagged with at that moment, and a channel that is not registered is never read (C17_read_registered, C17_unregistered_not_read, C17_tagged); capacity, per-channel consumed-prefix/exactly-once-of-everything-read and graceful termination hold across any sequence of additions and removals (C01_v1_*, C02_v1_*, C07_v1_done_without_stop). Tied to the code by exact comparison of deliveries, per-channel consumption, pending API calls and the scheduling state after every operation of add/replace/remove/re-add scripts; monitors: tags against the registration in force when the item was read, no read of an unregistered channel, capacity, graceful completion.",
+        ref="5.C17", note=STD + "No axioms. One channel is never registered under two priorities at once; AddInput/RemoveInput after termination panic (documented misuse) and are excluded.",
+        technique="Coq inductive invariants over the v1 pc-machine with channel identities + fake-time differential correspondence"),
     "C19": dict(
         text="Partial: proved on the models that the terminal program counter of every discipline enables no further step (C19_*_final) and that at termination of the v2 simplified discipline no handler holds an item and the output is empty, so every handler goroutine leaves its loop (C19_simple2_handlers_exit); the set of `go` statements of the seven discipline packages, regenerated from the source on every run, equals the models' goroutines (C19_goroutines, by computation in the kernel). That no goroutine is left over is observed, not proved: after every scenario -- normal, graceful, Stop, cancel, divider-fault termination, and after each of two overlapping Stop/GracefulStop calls of the v1 simplified discipline returned -- the harness waits for quiescence and counts goroutines created by library code; the synctest bubble refuses to end while one is blocked.",
         ref="5.C19", note=STD + "No axioms. Trusted: tools/racefacts (Go AST -> Facts.v), the runtime's goroutine dump.",
